@@ -245,11 +245,21 @@ impl Kernel {
                 Some(Ok(n))
             }
             Endpoint::Inherit => {
+                if fd == 2 && !data.is_empty() {
+                    // the compiler will never see these bytes in what it collects: say so in the trace
+                    self.emit(Ev::Gen { gen: g, what: "stderr-not-piped".into() });
+                }
                 raw::write_all_fd(if fd == 2 { 2 } else { 1 }, data);
                 Some(Ok(data.len()))
             }
-            // /dev/null, or a descriptor the script closed itself (EBADF, which scripts ignore)
-            Endpoint::Null | Endpoint::Closed => Some(Ok(data.len())),
+            Endpoint::Null => {
+                if fd == 2 && !data.is_empty() {
+                    self.emit(Ev::Gen { gen: g, what: "stderr-not-piped".into() });
+                }
+                Some(Ok(data.len()))
+            }
+            // a descriptor the script closed itself (EBADF, which scripts ignore)
+            Endpoint::Closed => Some(Ok(data.len())),
         }
     }
 
@@ -535,6 +545,10 @@ impl Kernel {
         });
         self.emit(Ev::Spawn { gen: g, program: program.to_owned(), args, stdin: kinds[0].clone(), stdout: kinds[1].clone(), stderr: kinds[2].clone(), result: g as i32, label: gen.label });
         Ok(g)
+    }
+
+    pub fn note_compiler_sigpipe(&mut self) {
+        self.emit(Ev::Gen { gen: usize::MAX, what: "compiler-gets-sigpipe-with-default-disposition".into() });
     }
 
     pub fn endpoints(&self, g: usize) -> (Endpoint, Endpoint, Endpoint) {
